@@ -171,3 +171,54 @@ for _v, _vn in ((0, "table"), (1, "class")):
               "cdd.sqlalchemy.utils.emit_utils.sqlalchemy_class_to_table", "cdd.shared.parse.utils.parser_utils.ir_merge"],
        bound="SQLAlchemy %s with two columns, each of ANY of %d kinds (plain, PK, FK, PK+FK, default+not-null, nullable, Enum, JSON+server_default), documented in the "
              "docstring or not (solver-enumerated): the returned interface is well-formed (only typ/doc/default/x_typ keys) and has exactly the two columns" % (_vn, len(COLKINDS)))(sql_parser)
+
+
+def sig_params_once(kind, documented, nargs, first):
+    """every parameter of the parsed signature appears exactly once, also when the caller names the function type / merges an inner function"""
+    import ast as _ast
+
+    import cdd.class_.parse
+    import cdd.docstring.utils.parse_utils as pu
+    import cdd.function.parse
+    from chx.shim import shim
+
+    names = [("name", "self", "cls")[first]] + ["p%d" % i for i in range(nargs)]
+    sig = ", ".join(names[:1] + ["%s=%d" % (n, 3) for n in names[1:]])
+    doc = "Doc.\n\n" + "".join(":param %s: the %s\n" % (n, n) for n in names if n not in ("self", "cls")) if documented else "Doc."
+    if kind == 0:
+        src = "def create(%s):\n    \'\'\'\n    %s\n    \'\'\'\n    return 1\n" % (sig, doc.replace("\n", "\n    "))
+        call = lambda: cdd.function.parse.function(_ast.parse(src).body[0])
+    elif kind == 1:
+        src = "def create(%s):\n    \'\'\'\n    %s\n    \'\'\'\n    return 1\n" % (sig, doc.replace("\n", "\n    "))
+        call = lambda: cdd.function.parse.function(_ast.parse(src).body[0], function_type=("static", "self", "cls")[first])
+    else:
+        deco = "    @staticmethod\n" if first == 0 else ("    @classmethod\n" if first == 2 else "")
+        src = ("class K(object):\n    \'\'\'\n    K doc.\n    \'\'\'\n    z: int = 1\n\n" + deco + "    def create(%s):\n        \'\'\'\n        %s\n        \'\'\'\n        return 1\n"
+               % (sig, doc.replace("\n", "\n        ")))
+        call = lambda: cdd.class_.parse.class_(_ast.parse(src).body[0], merge_inner_function="create")
+    with shim(pu, **ADHOC_SHIMS):
+        try:
+            ir = call()
+        except Exception:
+            return ""
+    d = wf(ir)
+    if d:
+        return d
+    got = list(ir["params"])
+    for n in names:
+        if n == "self" or n == "cls":
+            continue
+        c = 0
+        for g in got:
+            if g == n:
+                c += 1
+        if c != 1:
+            return "signature parameter %r appears %d time(s) in params %r" % (n, c, got)
+    return ""
+
+
+ob("C14", "ast.signature_once", {"kind": R(0, 2), "documented": BOOL, "nargs": R(0, 2), "first": R(0, 2)}, T=600, tpath=60,
+   funcs=["cdd.function.parse.function", "cdd.class_.parse.class_", "cdd.class_.parse._merge_inner_function", "cdd.shared.parse.utils.parser_utils.ir_merge"],
+   assumes=[ADHOC_SHIMS_DOC],
+   bound="function(def), function(def, function_type=...), class_(cls, merge_inner_function='create') on a def whose first argument is a plain name / self / cls, "
+         "0..2 further defaulted parameters, documented or not (solver-enumerated): well-formed result, every signature parameter exactly once")(sig_params_once)
